@@ -552,7 +552,11 @@ def run_real_procs(case):
     tmp = tempfile.mkdtemp(prefix="verif-c19p-")
     old = (CobaContext.cacher, CobaContext.logger)
     try:
-        CobaContext.cacher = DiskCacher(os.path.join(tmp, "cache"))
+        if case.get("cacher", "disk") == "file":
+            from vlib.comps_c19 import FileCacher
+            CobaContext.cacher = FileCacher(os.path.join(tmp, "cache"), case["delay"])
+        else:
+            CobaContext.cacher = DiskCacher(os.path.join(tmp, "cache"))
         CobaContext.logger = NullLogger()
         logpath = os.path.join(tmp, "getter.log")
         items = [(k, i) for i, k in enumerate(case["keys"])]
@@ -577,8 +581,13 @@ def real_proc_cases(draw, tier):
     procs = draw(st.integers(2, 4))
     first = draw(st.sampled_from(["k74", "k408", "k1"]))
     keys = [first] * procs + draw(st.lists(st.sampled_from(["k74", "k408", "k1"]), min_size=0, max_size=5))
-    return {"procs": procs, "keys": keys, "delay": draw(st.sampled_from([0.01, 0.03])),
+    return {"cacher": draw(st.sampled_from(["disk", "file"])), "procs": procs, "keys": keys, "delay": draw(st.sampled_from([0.01, 0.03])),
             "n_lines": draw(st.integers(1, 4)), "maxtasks": draw(st.sampled_from([0, 0, 2]))}
+
+def procs_fixed(tier):
+    """two fixed real-process cases that every run executes: three workers meeting on one key of a DiskCacher / of a user-defined file cacher"""
+    for kind in ("disk", "file"):
+        yield {"cacher": kind, "procs": 3, "keys": ["k74", "k74", "k74", "k408", "k74"], "delay": 0.03, "n_lines": 3, "maxtasks": 0}
 
 SUBCHECKS = [
     Sub(name="sched", run=run_sched, strategy=sched_cases, nontrivial=nontrivial_sched, classes=classes_sched, key=key_sched, classify=classify_sched,
@@ -591,6 +600,8 @@ SUBCHECKS = [
         quick_shards=2, what="DiskCacher: every byte prefix of a written .gz left on disk, read back directly and through ConcurrentCacher; getters failing after j lines"),
     Sub(name="threads_real", run=run_real_threads, strategy=real_thread_cases, nontrivial=contended, classes=classes_sched, key=key_sched,
         quick=300, thorough=20000, quick_shards=2, what="the same generated caller programs on real threads with a real Lock (OS schedules sampled, switch interval 10 us); same monitor and quiescence oracle"),
+    Sub(name="procs_fixed", run=run_real_procs, enumerate=procs_fixed, nontrivial=lambda c: True, quick_shards=2, thorough_shards=2, quick_budget_s=60,
+        what="two fixed real-process cases (DiskCacher, user-defined file-backed Cacher): three spawned workers rendezvous on one key; complete entry for every item, getter ran once per key"),
     Sub(name="procs_real", run=run_real_procs, strategy=real_proc_cases, nontrivial=lambda c: len(set(c["keys"])) < len(c["keys"]), quick=4, thorough=160,
-        quick_shards=2, thorough_shards=8, quick_budget_s=60, what="CobaMultiprocessor with spawned workers sharing a DiskCacher through the marshalled ConcurrentCacher: every item sees the complete entry, the getter ran exactly once per key (OS schedules sampled)"),
+        quick_shards=2, thorough_shards=8, quick_budget_s=60, what="CobaMultiprocessor with spawned workers sharing a DiskCacher or a user-defined file-backed Cacher through the marshalled ConcurrentCacher: every item sees the complete entry, the getter ran exactly once per key (OS schedules sampled)"),
 ]
